@@ -19,6 +19,7 @@ import GraphiqModel.Proofs.Compare
 import GraphiqModel.Proofs.CompareRepairNorm
 import GraphiqModel.Proofs.CompareRepairStab
 import GraphiqModel.Proofs.CompareRepairRenEq
+import GraphiqModel.Proofs.CompareRepairDirect
 namespace Graphiq.C15
 open Graphiq Graphiq.Export Graphiq.Compare
 
@@ -310,6 +311,15 @@ theorem dedup_sound (l : List Circuit) (hl : ∀ c ∈ l, WellFormed c) :
     (removeRedundant2 l).Sublist l ∧
     ∀ x ∈ l, x ∈ removeRedundant2 l ∨ ∃ k ∈ removeRedundant2 l, ∃ π, RenamedBy π (flatC k) (flatC x) :=
   removeRedundant2_sound l (fun c hc => wellFormed_opOK c (hl c hc))
+
+/-- **soundness of `direct` for the model of the code itself** — `direct` is the walk over the two simulated DAGs (build,
+    `unwrap_nodes`, `remove_identity`, then every register of both graphs in lock-step), the function the driver compares
+    with the implementation; `direct_sound` above is about its operation-list form `directL` (tested equal on every
+    input).  With the register-path invariant of the normalised DAG the statement holds for the walk directly: reported
+    equal ⇒ same register counts and the same executed operations on every quantum register -/
+theorem direct_sound_on_the_dag (c1 c2 : Circuit) (h1 : WellFormed c1) (h2 : WellFormed c2) (h : direct c1 c2 = .ok true) :
+    wiresEq c1 c2 = true :=
+  direct_graph_sound c1 c2 (wellFormed_opOK c1 h1) (wellFormed_opOK c2 h2) h
 
 /-- **the original full statements of §3, now theorems**: `iso_sound_statement` and `dedup_iso_statement` (refuted above
     for the matcher before the repair) hold literally — with the executable reference notion `renEq` the harness
